@@ -130,7 +130,19 @@ def search(n):
     exp = {"self": obj, "x": 1, "y": 2, "*": [], "z": 3, "**": {"q": 9}}
     if got != exp:
         return dict(violation=True, cases=cases, what="bound method: %r expected %r" % (got, exp), witness="K().m(1, q=9)")
-    return dict(violation=False, cases=cases, accepted=accepted)
+    # K15 (recorded finding): inspect.signature follows __wrapped__, so for a functools.wraps wrapper filter_args binds the arguments
+    # against the WRAPPED function's parameters instead of the wrapper's own
+    import functools
+
+    def f3(a, b):
+        return a * b
+
+    @functools.wraps(f3)
+    def wrapper(scale, *args, **kw):
+        return scale * f3(*args, **kw)
+    got = filter_args(wrapper, [], (2, 1, 5), {})
+    known["K15"] = ("filter_args(wrapper(scale, *args, **kw) wrapping f3(a, b), (2, 1, 5)) -> %r" % (got,)) if got != {"scale": 2, "*": [1, 5], "**": {}} else False
+    return dict(violation=False, cases=cases, accepted=accepted, known=known)
 
 
 if __name__ == "__main__":
